@@ -23,6 +23,17 @@ KINDS = "mlupt"  # managed int, managed List[int], unmanaged plain, spec_propert
 
 
 # ------------------------------------------------------------------ names / values
+def ekind(n):
+    """kind in force for type(obj): a managed int masked by a spec_property in a subclass
+    (assigned over the inherited name, no annotation) behaves like an annotated property"""
+    return "t" if n.get("mask") else n["kind"]
+
+
+def pdecl(n):
+    """the property declaration in force (flags, invalidated_by)"""
+    return n["mask"] if n.get("mask") else n
+
+
 def pyname(node):
     return f"l{node['id']}s" if node["kind"] == "l" else f"n{node['id']}"
 
@@ -77,7 +88,7 @@ class Built:
         self.nodes = {n["id"]: n for n in desc["nodes"]}
         self.names = {n["id"]: pyname(n) for n in desc["nodes"]}
         self.ids = {v: k for k, v in self.names.items()}
-        self.calls = {n["id"]: 0 for n in desc["nodes"] if n["kind"] in "pt"}
+        self.calls = {n["id"]: 0 for n in desc["nodes"] if ekind(n) in "pt"}
         built = self
 
         def make_getter(pid):
@@ -125,6 +136,9 @@ class Built:
                     if k == "t":
                         ann[nm] = int
                     ns[nm] = make_prop(n["id"], n["over"], n["cache"], n["inv"])
+                if n.get("mask") and n["mask"]["level"] == level:
+                    m = n["mask"]                              # no annotation: the attribute stays inherited
+                    ns[nm] = make_prop(n["id"], m["over"], m["cache"], m["inv"])
                 if k in "ml" and n.get("override") and n["override"]["level"] == level:
                     ns[nm] = py_val(n["override"]["value"])   # subclass re-defaults the attribute: `n0 = 7`
                 if k == "p" and n.get("redecl") and n["redecl"]["level"] == level:
@@ -268,6 +282,8 @@ def effective_inv(desc):
         inv = n["inv"]
         if n["kind"] == "p" and n.get("redecl"):
             inv = n["redecl"]["inv"]
+        if n.get("mask"):
+            inv = n["mask"]["inv"]       # the property's own
         eff[n["id"]] = inv
     return eff
 
@@ -361,6 +377,8 @@ def c_flags(over, cache):
 
 def resolved_default(n):
     """Attr.lookup_default_value(type(obj)): the most derived class attribute wins, else default / factory"""
+    if n.get("mask"):
+        return None
     if n.get("override"):
         return n["override"]["value"]
     return n.get("default")
@@ -371,7 +389,13 @@ def c_cdesc(desc, attr_order):
     attrs = []
     for i in attr_order:
         n = nodes[i]
-        if n["kind"] in "ml":
+        if n.get("mask"):
+            # masked in a subclass: a spec subclass rebuilds the Attr (invalidated_by = the property's own),
+            # a plain subclass leaves the metadata as declared by the owner
+            m = n["mask"]
+            inv = m["inv"] if m["level"] == 1 else n["inv"]
+            attrs.append(f"({i}, mka None (Some {c_flags(m['over'], m['cache'])}) {clist(inv, c_dep)})")
+        elif n["kind"] in "ml":
             rd = resolved_default(n)
             dflt = "None" if rd is None else f"(Some {c_val(rd)})"
             attrs.append(f"({i}, mka {dflt} None {clist(n['inv'], c_dep)})")
@@ -386,6 +410,9 @@ def c_cdesc(desc, attr_order):
                 mem.append(f"({n['id']}, mkm (Some {c_flags(n['over'], n['cache'])}) {clist(n['inv'], c_dep)})")
             if n["kind"] == "p" and n.get("redecl") and n["redecl"]["level"] == lv:
                 r = n["redecl"]
+                mem.append(f"({n['id']}, mkm (Some {c_flags(r['over'], r['cache'])}) {clist(r['inv'], c_dep)})")
+            if n.get("mask") and n["mask"]["level"] == lv:
+                r = n["mask"]
                 mem.append(f"({n['id']}, mkm (Some {c_flags(r['over'], r['cache'])}) {clist(r['inv'], c_dep)})")
         levels.append(f"mkl {cbool(lv == 2)} {clist(mem)}")
     return f"(mkc {clist(attrs)} {clist(levels)} {cbool(desc['frozen'])})"
@@ -521,6 +548,14 @@ def gen_desc(rng, tier, max_nodes, max_len):
                     inv.append("*")
                 n["inv"] = inv
     for n in nodes:
+        # a subclass assigns a spec_property over an INHERITED managed attribute (no annotation)
+        if n["kind"] == "m" and n["level"] == 0 and not n.get("override") and (specsub or plainsub) and rng.random() < 0.2:
+            r = rng.random()
+            cache, over = (1, 1) if r < 0.45 else (1, 0) if r < 0.85 else (0, 1)
+            others = [j for j in ids if j != n["id"]]
+            inv = [] if rng.random() < 0.3 else (["*"] if rng.random() < 0.1 else rng.sample(others, min(len(others), rng.choice([1, 1, 2]))))
+            n["mask"] = {"level": rng.choice(([1] if specsub else []) + ([2] if plainsub else [])), "over": over, "cache": cache, "inv": inv}
+    for n in nodes:
         if n["kind"] == "p" and rng.random() < 0.12:
             lv = [x for x in ([1] if specsub else []) + ([2] if plainsub else []) if x > n["level"]]
             if lv:
@@ -529,10 +564,10 @@ def gen_desc(rng, tier, max_nodes, max_len):
     desc = {"frozen": frozen, "specsub": specsub, "plainsub": plainsub, "nodes": nodes}
     # getters: bias + weighted sum over the base names a property (transitively) depends on
     eff = effective_inv(desc)
-    base = [n["id"] for n in nodes if n["kind"] in "mlu"]
+    base = [n["id"] for n in nodes if ekind(n) in "mlu"]
     getters = {}
     for n in nodes:
-        if n["kind"] not in "pt":
+        if ekind(n) not in "pt":
             continue
         anc, todo = set(), [n["id"]]
         star = False
@@ -550,12 +585,12 @@ def gen_desc(rng, tier, max_nodes, max_len):
     # constructor arguments and __post_init__ reads
     kwargs = []
     for n in nodes:
-        if n["kind"] in "ml" and (resolved_default(n) is None and rng.random() < 0.8 or rng.random() < 0.3):
+        if ekind(n) in "ml" and (resolved_default(n) is None and rng.random() < 0.8 or rng.random() < 0.3):
             kwargs.append((n["id"], rng.choice(VALS_INT) if n["kind"] == "m" else ["l", rng.choice(VALS_LIST)]))
-        elif n["kind"] == "t" and n["over"] and rng.random() < 0.15:
+        elif ekind(n) == "t" and pdecl(n)["over"] and rng.random() < 0.15:
             kwargs.append((n["id"], rng.choice(VALS_INT)))
     desc["kwargs"] = kwargs
-    props = [n["id"] for n in nodes if n["kind"] in "pt"]
+    props = [n["id"] for n in nodes if ekind(n) in "pt"]
     desc["post"] = [p for p in props if rng.random() < 0.35]
     ln = max_len if rng.random() < 0.6 else rng.randint(1, max_len)
     desc["hist"] = [gen_op(rng, desc) for _ in range(ln)]
@@ -572,7 +607,7 @@ def gen_value(rng, node, bad=0.08):
 
 def gen_op(rng, desc):
     nodes = desc["nodes"]
-    by = lambda ks: [n for n in nodes if n["kind"] in ks]  # noqa: E731
+    by = lambda ks: [n for n in nodes if ekind(n) in ks]  # noqa: E731
     ip = rng.random() < 0.5
     follow = rng.random() < 0.6
     r = rng.random()
@@ -772,6 +807,8 @@ def main(tier, replay=None):
             feat[k] += bool(d[k])
         feat["wildcard"] += any("*" in n["inv"] for n in d["nodes"])
         feat["redecl"] += any(n.get("redecl") for n in d["nodes"])
+        feat["inherited_attr_masked_in_spec_subclass"] = feat.get("inherited_attr_masked_in_spec_subclass", 0) + any((n.get("mask") or {}).get("level") == 1 for n in d["nodes"])
+        feat["inherited_attr_masked_in_plain_subclass"] = feat.get("inherited_attr_masked_in_plain_subclass", 0) + any((n.get("mask") or {}).get("level") == 2 for n in d["nodes"])
         feat["default_factory"] = feat.get("default_factory", 0) + any(n.get("factory") for n in d["nodes"])
         feat["subclass_redefault"] = feat.get("subclass_redefault", 0) + any(n.get("override") for n in d["nodes"])
         feat["post_init_reads"] += bool(d["post"])
